@@ -1,5 +1,108 @@
 //! C07: a rejected event has no effect.
-use crate::{out::Sink, recv::*, recv2::*, rng::Rng, Opts};
+use tracing_tunnel::{CallSiteKind, LocalSpans, PersistedSpans, TracingEvent, TracingEventReceiver};
+
+use crate::{coq::*, out::Sink, recv::*, recv2::*, rng::Rng, Opts};
+
+/// One run of a stale-metadata history (see Judge/C07.v): returns the snapshot after the restore,
+/// the observations of `e2` and the exits of the final persist.
+fn run_stale(e0: &[TracingEvent], e1: &[TracingEvent], keep: bool, e2: &[TracingEvent], nonce: &str) -> (Snapshot, Vec<Obs>, Vec<HCall>) {
+    let rec = Recorder::new(nonce);
+    let mut out = vec![];
+    let mut snap0 = Snapshot::default();
+    let mut fin = vec![];
+    tracing::subscriber::with_default(rec.clone(), || {
+        let mut receiver = TracingEventReceiver::default();
+        for ev in e0 {
+            let _ = receiver.try_receive(ev.clone());
+        }
+        let md = receiver.persist_metadata(); // taken early: does not know the call sites of e1
+        for ev in e1 {
+            let _ = receiver.try_receive(ev.clone());
+        }
+        let (spans, local) = receiver.persist();
+        let text = serde_json::to_string(&spans).unwrap();
+        let spans: PersistedSpans = serde_json::from_str(&text).unwrap();
+        let local = if keep { local } else { LocalSpans::default() };
+        let mut receiver = TracingEventReceiver::new(md, spans, local);
+        snap0 = receiver.verif_snapshot();
+        for ev in e2 {
+            let mark = rec.mark();
+            let res = receiver.try_receive(ev.clone());
+            let o = match res {
+                Ok(()) => Outcome::Accepted,
+                Err(tracing_tunnel::ReceiveError::UnknownMetadataId(id)) => Outcome::UnknownMeta(id),
+                Err(tracing_tunnel::ReceiveError::UnknownSpanId(id)) => Outcome::UnknownSpan(id),
+                Err(tracing_tunnel::ReceiveError::TooManyValues { actual, .. }) => Outcome::TooMany(actual),
+                Err(e) => Outcome::OtherError(e.to_string()),
+            };
+            out.push(Obs::Recv(o, rec.since(mark), receiver.verif_snapshot()));
+        }
+        let mark = rec.mark();
+        let _ = receiver.persist();
+        fin = rec.since(mark);
+    });
+    (snap0, out, fin)
+}
+
+fn stale_case(sink: &mut Sink, idx: u64, r: &mut Rng, nonce: &str) {
+    if !sink.wants(idx) {
+        return;
+    }
+    let known = call_site(CallSiteKind::Span, nonce, "known", 3, false);
+    let late = call_site(CallSiteKind::Span, nonce, "late", *r.pick(&[0usize, 2, 5]), false);
+    let late_ev = call_site(CallSiteKind::Event, nonce, "late_ev", 2, false);
+    let e0 = vec![
+        TracingEvent::NewCallSite { id: 1, data: known.clone() },
+        TracingEvent::NewSpan { id: 1, parent_id: None, metadata_id: 1, values: gen_values(r, 3, 3, false) },
+    ];
+    let mut e1 = vec![
+        TracingEvent::NewCallSite { id: 2, data: late.clone() },
+        TracingEvent::NewCallSite { id: 3, data: late_ev.clone() },
+        TracingEvent::NewSpan { id: 2, parent_id: None, metadata_id: 2, values: gen_values(r, 5, 3, false) },
+        TracingEvent::NewSpan { id: 3, parent_id: Some(2), metadata_id: 2, values: gen_values(r, 5, 2, false) },
+    ];
+    if r.chance(50) {
+        e1.push(TracingEvent::SpanCloned { id: 2 });
+    }
+    // e2: events on spans whose call site the restored receiver does not know, re-announcements, valid traffic
+    let mut e2 = vec![];
+    let n = r.range(4, 14);
+    for _ in 0..n {
+        let id = *r.pick(&[1u64, 2, 2, 3, 3, 9]);
+        e2.push(match r.below(10) {
+            0 | 1 | 2 => TracingEvent::SpanEntered { id },
+            3 => TracingEvent::SpanExited { id },
+            4 | 5 => TracingEvent::ValuesRecorded { id, values: gen_values(r, 5, 3, true) },
+            6 => TracingEvent::NewEvent { metadata_id: *r.pick(&[1u64, 3, 3]), parent: if r.chance(50) { Some(id) } else { None }, values: gen_values(r, 2, 2, false) },
+            7 => TracingEvent::NewCallSite { id: 2, data: late.clone() },
+            8 => TracingEvent::NewCallSite { id: 3, data: late_ev.clone() },
+            _ => TracingEvent::NewSpan { id: 10 + r.below(3), parent_id: Some(id), metadata_id: *r.pick(&[1u64, 2]), values: gen_values(r, 3, 2, false) },
+        });
+    }
+    let keep = r.chance(50);
+    let (snap0, obs, fin) = run_stale(&e0, &e1, keep, &e2, nonce);
+    let e2b: Vec<TracingEvent> = e2
+        .iter()
+        .zip(&obs)
+        .filter(|(_, o)| matches!(o, Obs::Recv(Outcome::Accepted, ..)))
+        .map(|(e, _)| e.clone())
+        .collect();
+    let (snap0b, obsb, finb) = run_stale(&e0, &e1, keep, &e2b, nonce);
+    let rejected = e2.len() - e2b.len();
+    sink.bump_by("stale:rejected", rejected as u64);
+    sink.bump_by("stale:unknown_meta", obs.iter().filter(|o| matches!(o, Obs::Recv(Outcome::UnknownMeta(_), ..))).count() as u64);
+    intern_begin();
+    let cevs = |evs: &[TracingEvent]| clist(evs.iter(), cevent);
+    let judge = format!(
+        "judge_c07_stale {} {} {} {} {} {} {} {} {} {} {}",
+        cevs(&e0), cevs(&e1), cbool(keep), cevs(&e2), csnap(&snap0), cobss(&obs), ccalls(&fin),
+        cevs(&e2b), csnap(&snap0b), cobss(&obsb), ccalls(&finb)
+    );
+    let judge = intern_wrap(&judge);
+    let input = format!("{} {} {}", cevs(&e1), keep, cevs(&e2));
+    sink.case(idx, "stale-metadata", &judge, &input, rejected > 0, || serde_json::json!({ "e1": cevs(&e1), "keep": keep, "e2": cevs(&e2) }));
+}
+
 
 fn drop_rejected(steps: &[Step], obs: &[Obs]) -> Vec<Step> {
     steps
@@ -30,7 +133,9 @@ pub fn run(o: &Opts) {
             let evs = gen_stream(&mut r, &cfg, &nonce);
             let cut = *r.pick(&[0u64, 0, 15]);
             let steps = with_cuts(&mut r, &evs, cut, 40, 25);
-            if idx % 2 == 0 {
+            if idx % 4 == 3 {
+                stale_case(&mut sink, idx, &mut r, &nonce);
+            } else if idx % 2 == 0 {
                 hist_case(&mut sink, "judge_c07", idx, "single", &steps, &nonce);
             } else {
                 two_run_case(
@@ -50,7 +155,7 @@ pub fn run(o: &Opts) {
     sink.finish(
         "histories with 10/25/50 % bogus references (unknown call sites, dead spans, oversized value sets), optionally cut by persist/drop steps; \
          even cases check every rejected event in place (no host call, state unchanged), odd cases additionally run the stream with the rejected events removed and compare \
-         host calls and states pairwise; non-trivial = at least one accepted and one rejected event (single) resp. at least one event removed (pair)",
+         host calls and states pairwise; a quarter of the cases restore from a metadata snapshot taken earlier than the spans (spans alive whose call site the receiver does not know), so that rejections happen after successful lookups; non-trivial = at least one accepted and one rejected event (single) resp. at least one event removed (pair)",
         serde_json::json!({}),
     );
 }
